@@ -125,6 +125,20 @@ def _colour_events(seed, thorough, tid0):
                 ch = Q.split_quat_channels(q)
                 st = Q.stack_quat_channels(*ch)
                 ev.append({"tid": tid, "op": "flag", "clause": "SplitStackInverse", "ok": bool(np.array_equal(st, q)), "kind": kind})
+    # split / stack with planes of MIXED dtypes (integer real plane, float colour planes ...): values must survive
+    for (H, W) in sizes[:4]:
+        col = [rng.integers(0, 65, (H, W)) / 64.0 for _ in range(3)]
+        col255 = [rng.integers(0, 256, (H, W)) + 0.5 for _ in range(3)]
+        for name, q0, cols in (("int-zero-real+float", np.zeros((H, W), dtype=np.int64), col),
+                               ("uint8-real+float255", np.full((H, W), 7, dtype=np.uint8), col255),
+                               ("float32-real+float64", np.full((H, W), 0.25, dtype=np.float32), col),
+                               ("bool-real+float", np.zeros((H, W), dtype=bool), col)):
+            tid += 1
+            st = Q.stack_quat_channels(q0, *cols)
+            back = Q.split_quat_channels(st)
+            ok = np.asarray(st).shape == (H, W, 4) and all(np.array_equal(np.asarray(b, dtype=np.float64), np.asarray(o, dtype=np.float64))
+                                                              for b, o in zip(back, [q0] + cols))
+            ev.append({"tid": tid, "op": "flag", "clause": "SplitStackInverse", "ok": bool(ok), "kind": "mixed-dtype:" + name, "shape": [H, W]})
     # metrics: zero-distance consistency
     for n in range(40 if thorough else 16):
         tid += 1
